@@ -1381,7 +1381,9 @@ class SubsetSegment(DataSegment):
         self._verify_write_raw_details(data)
         subscript = _infer_subscript_for_write(data, start_indices, subscript, self.raw_shape)
         parent_subscript = self.get_parent_raw_subscript(subscript)
-        self.parent.write_raw(data, subscript=parent_subscript, **kwargs)
+        # restore any dimensions which have been squeezed
+        _, parent_shape = get_subscript_result_size(parent_subscript, self.parent.raw_shape)
+        self.parent.write_raw(numpy.reshape(data, parent_shape), subscript=parent_subscript, **kwargs)
         self._update_pixels_written(data.size)
 
     def write(
